@@ -12,6 +12,12 @@ from ..engines.typecase import TypeCase, events_matching
 
 
 def check(ctx: Ctx) -> None:
+    _check(ctx)
+    from ..engines.typestate import check_wrappers
+    check_wrappers(ctx, ['merge'])
+
+
+def _check(ctx: Ctx) -> None:
     p = ctx.p
     eff = Effects(p)
     ctx.explanation = (
